@@ -1,4 +1,122 @@
-import Cutplace.Model.Engine
+import Cutplace.Proofs.EngineLemmas
+import Cutplace.Props.C06
+/-
+C04  A row is accepted iff all cells and row checks pass; errors name the culprit.
+-/
 namespace Cutplace.Props
-theorem C04_placeholder : True := trivial
+open Cutplace
+
+variable {σ : Type}
+
+/-- A row is accepted iff it has exactly as many items as there are fields, every item is accepted
+by the field in the same position, and no row check vetoes it (for every column list — i.e. every
+field type — every check list and every check state). -/
+theorem C04_row_iff (cols : List Column) (checks : List (Check σ)) (sts : List σ) (row : Row) (line : Nat) :
+    (validateRow cols checks sts row line).2.1 = none ↔
+      row.length = cols.length ∧ (∀ p ∈ cols.zip row, p.1.accepts p.2 = true) ∧
+        (runChecks checks sts row line 0).2.1 = none := by
+  unfold validateRow
+  by_cases hlen : row.length = cols.length
+  · simp only [hlen, ne_eq, not_true_eq_false, if_false, true_and]
+    have hc := validateCells_culprit cols row 0
+    generalize hvc : validateCells cols row 0 = vc at hc
+    obtain ⟨culprit, log⟩ := vc
+    simp only at hc
+    cases hf : (cols.zip row).findIdx? rejects with
+    | none =>
+      rw [hf] at hc; simp only [Option.map_none] at hc; subst hc
+      simp only [Option.map_eq_none_iff]
+      rw [List.findIdx?_eq_none_iff] at hf
+      constructor
+      · intro h; exact ⟨fun p hp => by simpa [rejects] using hf p hp, h⟩
+      · intro h; exact h.2
+    | some k =>
+      rw [hf] at hc; simp only [Option.map_some] at hc; subst hc
+      simp only [reduceCtorEq, false_iff, not_and]
+      intro hall
+      rw [List.findIdx?_eq_some_iff_getElem] at hf
+      obtain ⟨hk, hrej, _⟩ := hf
+      have hacc := hall _ (List.getElem_mem hk)
+      exfalso
+      unfold rejects at hrej
+      rw [hacc] at hrej
+      exact absurd hrej (by decide)
+  · simp [hlen]
+
+/-- A wrong number of items is reported as a plain data error for that row; no field and no check is consulted. -/
+theorem C04_count_error (cols : List Column) (checks : List (Check σ)) (sts : List σ) (row : Row) (line : Nat)
+    (h : row.length ≠ cols.length) :
+    validateRow cols checks sts row line = (sts, some .count, []) := by
+  simp [validateRow, h]
+
+/-- A field rejection names the *first* offending column: every earlier cell is accepted by its
+field, the named one is not. -/
+theorem C04_culprit (cols : List Column) (checks : List (Check σ)) (sts : List σ) (row : Row) (line j : Nat)
+    (h : (validateRow cols checks sts row line).2.1 = some (.field j)) :
+    row.length = cols.length ∧ ∃ hj : j < (cols.zip row).length,
+      ((cols.zip row)[j].1.accepts (cols.zip row)[j].2 = false) ∧
+      ∀ i (hi : i < j), ((cols.zip row)[i]'(by omega)).1.accepts ((cols.zip row)[i]'(by omega)).2 = true := by
+  unfold validateRow at h
+  by_cases hlen : row.length = cols.length
+  · refine ⟨hlen, ?_⟩
+    simp only [hlen, ne_eq, not_true_eq_false, if_false] at h
+    have hc := validateCells_culprit cols row 0
+    generalize hvc : validateCells cols row 0 = vc at hc h
+    obtain ⟨culprit, log⟩ := vc
+    simp only at hc h
+    cases culprit with
+    | none =>
+      simp only at h
+      cases hr : (runChecks checks sts row line 0).2.1 <;> simp [hr] at h
+    | some k =>
+      simp only [Option.some.injEq, RowErr.field.injEq] at h
+      subst h
+      cases hf : (cols.zip row).findIdx? rejects with
+      | none => rw [hf] at hc; simp at hc
+      | some k' =>
+        rw [hf] at hc; simp only [Option.map_some, Nat.add_zero, Option.some.injEq] at hc; subst hc
+        rw [List.findIdx?_eq_some_iff_getElem] at hf
+        obtain ⟨hk, hrej, hbefore⟩ := hf
+        refine ⟨hk, by simpa [rejects] using hrej, ?_⟩
+        intro i hi
+        have := hbefore i hi
+        simpa [rejects] using this
+  · simp [hlen] at h
+
+/-- A check rejection is reported only when every cell was accepted. -/
+theorem C04_check_error_after_fields (cols : List Column) (checks : List (Check σ)) (sts : List σ) (row : Row)
+    (line idx : Nat) (see : Option Nat)
+    (h : (validateRow cols checks sts row line).2.1 = some (.check idx see)) :
+    row.length = cols.length ∧ (∀ p ∈ cols.zip row, p.1.accepts p.2 = true) := by
+  unfold validateRow at h
+  by_cases hlen : row.length = cols.length
+  · refine ⟨hlen, ?_⟩
+    simp only [hlen, ne_eq, not_true_eq_false, if_false] at h
+    have hc := validateCells_culprit cols row 0
+    generalize hvc : validateCells cols row 0 = vc at hc h
+    obtain ⟨culprit, log⟩ := vc
+    simp only at hc h
+    cases culprit with
+    | some k => simp at h
+    | none =>
+      cases hf : (cols.zip row).findIdx? rejects with
+      | some k' => rw [hf] at hc; simp at hc
+      | none =>
+        rw [List.findIdx?_eq_none_iff] at hf
+        intro p hp
+        simpa [rejects] using hf p hp
+  · simp [hlen] at h
+
+/-- Every error yielded for a data set carries the 0-based line of its raw row (header rows are
+counted): this is `C06_yield_order`, restated for the error events. -/
+theorem C04_reader_line (header : Nat) (limit : Option Nat) (cols : List Column) (checks : List (Check σ))
+    (fault : Bool) (n : Nat) (rows : List Row) (st : RState σ) :
+    EventsMatch header n rows (readLoop ⟨.yield, header, limit⟩ cols checks fault n rows st).events :=
+  C06_yield_order header limit cols checks fault n rows st
+
+/-- non-vacuity -/
+example :
+    let good : Column := ⟨fun v => .inr v, fun v => v != ['x']⟩
+    (validateRow (σ := Unit) [good, good, good] [] [] [['a'], ['x'], ['x']] 5).2.1 = some (.field 1) := by decide
+
 end Cutplace.Props
